@@ -1,5 +1,6 @@
 import BareProofs.C01Source
 import BareProofs.C02Print
+import BareProofs.C10Ws
 
 /-!
 # C01 from source text, with the concrete expression printer
@@ -53,6 +54,18 @@ theorem source_then_run_printExpr {W : Type} (cfg : Config W) (base : Option Str
         toRes (execTB cfg (callValue₀ cfg) (execIncludes₀ cfg) false B 0 fuel none base { st with count := 0 }) := by
   simp only [SourcePrintable, Bool.and_eq_true] at hp
   exact source_then_run cfg base _ B hw hf hi hr hp.1 (progRoundTrips_printExpr hp.2) fuel st
+
+/-- **C01 from indented source text**: the usual layout (`n` blanks per nesting level) of the same program parses to
+the same lowering — `C10.parseExpr_skips_leading_blanks` discharges the hypothesis about the expression parser. -/
+theorem parseScript_printPretty_printExpr (n : Nat) (B : List SStmt) (hw : WellNested B) (hf : FidsInOrder B)
+    (hi : NoAdjacentIncludes B) (hp : SourcePrintable B = true) (start : Nat := 1) :
+    parseScript [printPretty Print.printExpr n B] start = .ok (lowerProgram B) := by
+  simp only [SourcePrintable, Bool.and_eq_true] at hp
+  exact parseScript_printPretty C10.parseExpr_skips_leading_blanks _ n B hw hf hi hp.1 (progRoundTrips_printExpr hp.2) start
+
+example : parseScript [printPretty Print.printExpr 4 SourceDemo.prog] = .ok (lowerProgram SourceDemo.prog) :=
+  parseScript_printPretty_printExpr 4 _ SourceDemo.prog_structure.1 SourceDemo.prog_structure.2.1
+    SourceDemo.prog_structure.2.2 (by decide +kernel)
 
 /-- the hypotheses are inhabited by `SourceDemo.prog` (function, nested if/elif/else, while with break, for with index
 and continue, returns, includes, call statements) -/
